@@ -381,6 +381,18 @@ def gen_case(ctx, k, big=False):
     kindpref = ["width", "number", "ppi"][k % 3] if rng.random() < 0.7 else None
     spec = gen_spec(rng, n_rows, kindpref)
     variant = VARIANTS[(k // 3) % len(VARIANTS)] if rng.random() < 0.7 else rng.choice(VARIANTS)
+    if k % 10 == 7:
+        # exponentiated Weibull in every dimension, (weighted) least squares with each weight option in turn
+        wopts = [None, "linear", "quadratic", "cubic"]
+        spec["dims"][0]["template"] = rng.choice(["ew", "ewfree"])
+        for dm in spec["dims"][1:]:
+            if dm["conditional_on"] is not None:
+                dm["template"], dm["deps"] = "ew", {"alpha": "lin", "beta": "lin"}
+            else:
+                dm["template"] = "ew"
+        spec["fds"] = [{"method": "wlsq", "weights": wopts[(k // 10 + j) % 4]} for j in range(len(spec["dims"]))]
+        if variant == "sorted":
+            variant = "shuffled"
     if k % 10 == 4:
         # float coincidences: decimal widths (no binary fractions) with conditioning values rounded to one decimal,
         # i.e. many observations exactly on interval edges
@@ -731,6 +743,20 @@ def standalone(b, spec, fds, out):
             got = [float(t.parameters[pn]) for pn in b.param_names[i]]
             tot += 1
             exact += got == d["pars"][k]
+            if m.lower() in ("lsq", "wlsq") and bad is None:
+                # the stand-alone fit does not depend on the order in which it gets the interval's observations
+                t2 = copy.deepcopy(b.fresh[i])
+                try:
+                    with warnings.catch_warnings(), np.errstate(all="ignore"):
+                        warnings.simplefilter("ignore")
+                        t2.fit(np.sort(np.array(obs, dtype=float)), m, w)
+                    got2 = [float(t2.parameters[pn]) for pn in b.param_names[i]]
+                    if not all(relclose(a, bb, 1e-9, 1e-12) or (math.isnan(a) and math.isnan(bb)) for a, bb in zip(got2, d["pars"][k])):
+                        bad = ({"clause": "standalone-fit", "kind": "order", "method": "wlsq"},
+                               "dimension %d interval %d (%r): estimate %r, stand-alone fit of the template to the interval's observations in sorted order %r" % (
+                                   i, k, (m, w), d["pars"][k], got2))
+                except Exception:
+                    pass
             if not all(relclose(a, bb) or (math.isnan(a) and math.isnan(bb)) for a, bb in zip(got, d["pars"][k])) and bad is None:
                 bad = ({"clause": "standalone-fit"}, "dimension %d interval %d: estimate %r, stand-alone fit of the template to the interval's observations %r" % (
                     i, k, d["pars"][k], got))
@@ -749,8 +775,15 @@ def compare_models(spec, data, o1, o2, what, notes):
         sig = {"clause": what, "slicer": s["kind"] if s else "none"}
         if s and s["kind"] == "ppi":
             sig["ties_across_chunk_boundary"] = bool(ties_across_chunks(data[:, c], s))
+        # (weighted) least squares sorts the observations first: no summation-order or optimiser noise between two
+        # orders of the same observations, the estimates have to agree (1e-9); maximum likelihood: 1e-6, beyond = noise
+        exact = filled(spec.get("fds"), i)[0].lower() in ("lsq", "wlsq")
         if not d1["cond"]:
-            if not all(relclose(a, bb) for a, bb in zip(d1["pars"], d2["pars"])):
+            if exact and what == "order-invariance":
+                if not all(relclose(a, bb, 1e-9, 1e-12) for a, bb in zip(d1["pars"], d2["pars"])):
+                    return (dict(sig, kind="estimates", method="wlsq"), "dimension %d (unconditional, %r): estimates %r vs %r for two orders of the same observations" % (
+                        i, filled(spec.get("fds"), i), d1["pars"], d2["pars"]))
+            elif not all(relclose(a, bb) for a, bb in zip(d1["pars"], d2["pars"])):
                 notes["optimiser_noise_unjudged"] = notes.get("optimiser_noise_unjudged", 0) + 1
             continue
         if len(d1["data_intervals"]) != len(d2["data_intervals"]):
@@ -764,6 +797,11 @@ def compare_models(spec, data, o1, o2, what, notes):
         if not all(relclose(a[0], bb[0], 1e-9, 1e-12) and relclose(a[1], bb[1], 1e-9, 1e-12) for a, bb in zip(d1["boundaries"], d2["boundaries"])):
             return (dict(sig, kind="boundaries"), "dimension %d: interval boundaries differ" % i)
         # same observations per interval: remaining differences of the estimates are optimiser / summation noise
+        if exact:
+            for k, (p, q) in enumerate(zip(d1["pars"], d2["pars"])):
+                if not all(relclose(a, bb, 1e-9, 1e-12) or (math.isnan(a) and math.isnan(bb)) for a, bb in zip(p, q)):
+                    return (dict(sig, kind="estimates", method="wlsq"), "dimension %d interval %d (%r): the same observations in another order give the estimates %r instead of %r" % (
+                        i, k, filled(spec.get("fds"), i), q, p))
         same_est = all(relclose(a, bb) or (math.isnan(a) and math.isnan(bb)) for p, q in zip(d1["pars"], d2["pars"]) for a, bb in zip(p, q))
         if not same_est:
             notes["optimiser_noise_unjudged"] = notes.get("optimiser_noise_unjudged", 0) + 1
